@@ -19,7 +19,8 @@ META = dict(
               "None; every prepare_dump rejection reason (generalized orbitals, occs_aminusb, generalized contractions, "
               "pure functions for WFN/WFX, non-aufbau occupations for FCHK incl. symbolic occupations, missing / "
               "unsupported schema_name for QCSchema) x allow_changes; target absent / pre-existing; dump_many with the faulty "
-              "frame at index 0, 1, 2 and list / generator iterables, empty sequence; a fault injected at the k-th write "
+              "frame at index 0, 1, 2 and list / generator iterables, empty sequence; a generator raising one of five "
+              "exception types (incl. IOData's own LoadError / FileFormatError / WriteInputError) before frame 0, 1, 2; a fault injected at the k-th write "
               "for every k up to 12 (and the last); unknown and unsupported formats; an un-openable target",
         thorough="as quick with a fault at the k-th write for every k up to 60 (and the last) and FCHK occupation vectors of three orbitals"),
     outside=["operating-system level faults other than a failing write()/open()", "threads"],
@@ -268,6 +269,38 @@ def h_write_fault(ctx, fmt="xyz", many=False, kmax=12):
     ctx.oblige("file-closed-afterwards", _closed(ev), cls=cls)
 
 
+def h_generator_error(ctx, fmt="xyz"):
+    """dump_many fed by a generator that raises at frame k: once the file is open the failure surfaces as DumpError, whatever
+    the type of the original exception (also IOData's own LoadError / FileFormatError / WriteInputError of a lazy pipeline)."""
+    import iodata.api as api
+    from iodata.iodata import IOData
+    from iodata.utils import DumpError, FileFormatError, LoadError, PrepareDumpError, WriteInputError
+    kind = ctx.choice(["RuntimeError", "LoadError", "FileFormatError", "WriteInputError", "KeyError"], label="exception")
+    k = ctx.choice([0, 1, 2], label="raise-before-frame")
+    exc_type = {"RuntimeError": RuntimeError, "LoadError": LoadError, "FileFormatError": FileFormatError,
+                "WriteInputError": WriteInputError, "KeyError": KeyError}[kind]
+    path = ctx.tmp_path(FILENAMES[fmt])
+    with stubbed(api):
+        frames = [IOData(**rich_object(ctx, fmt)) for _ in range(3)]
+        raised = []
+
+        def gen():
+            for i, f in enumerate(frames):
+                if i == k:
+                    e = exc_type("lazy source failed") if kind in ("RuntimeError", "KeyError") else exc_type("lazy source failed", "in.xyz")
+                    raised.append(e)
+                    raise e
+                yield f
+        out, ev, _ = _run_dump(ctx, api, api.dump_many, gen(), path, fmt=fmt)
+    cls = f"{fmt},{kind},k={k}"
+    if k == 0:
+        # nothing has been opened yet: the caller's own exception (or a pre-flight error) comes back, the target is untouched
+        ctx.oblige("no-file-access-before-the-first-frame", not any(e[0] in ("open", "truncate", "write") for e in ev), cls=cls, detail=str(ev[:3]))
+    else:
+        ctx.oblige("failure-while-writing-surfaces-as-DumpError", out == "DumpError", cls=cls, detail=out)
+        ctx.oblige("file-closed-afterwards", _closed(ev), cls=cls)
+
+
 def h_misc(ctx):
     import iodata.api as api
     from iodata.iodata import IOData
@@ -343,5 +376,7 @@ def jobs(tier):
     for fmt in DUMP_MANY:
         out.append(job("C08", f"write-fault[{fmt},many]", M, "h_write_fault", dict(fmt=fmt, many=True, kmax=kmax),
                        max_validate=0, validate=False))
+    for fmt in DUMP_MANY:
+        out.append(job("C08", f"generator-error[{fmt}]", M, "h_generator_error", dict(fmt=fmt), validate=False))
     out.append(job("C08", "misc", M, "h_misc", {}, validate=False))
     return out
